@@ -359,7 +359,7 @@ func genContentExt(t *rapid.T, kind, label string) core.Extension {
 			e.BC.Ca = core.BoolP(false)
 		}
 		if rapid.Bool().Draw(t, label+"-haspl") {
-			e.BC.PathLen = core.IntP(rapid.SampledFrom([]int{0, 0, 1, 2, 3, 127, 128, 255, rapid.IntRange(0, 255).Draw(t, label+"-plr")}).Draw(t, label+"-pl"))
+			e.BC.PathLen = core.IntP(rapid.SampledFrom([]int{0, 0, 1, 2, 3, 127, 128, 255, 256, 32767, 65535, 1<<31 - 1, rapid.IntRange(0, 255).Draw(t, label+"-plr")}).Draw(t, label+"-pl"))
 		}
 	case core.KCP:
 		n := rapid.IntRange(1, 4).Draw(t, label+"-n")
